@@ -3,7 +3,9 @@
    The labelling function is user code: the labels it returns are an input of the model
    (one label code per id, in id order; NONE_LABEL stands for python None; equal codes
    = labels that are equal as python dict keys).  The two dict forms are modelled.
-   As in Model/Concat.v the requested axis is turned into the row axis first. *)
+   As in Model/Concat.v the requested axis is turned into the row axis first.
+   Line numbers cite biom/table.py of the pinned tree (32a1913a, as in properties.jsonl); later
+   repairs shift them by a few dozen lines, the statement order inside each method is unchanged. *)
 From Coq Require Import List Arith ZArith Lia Bool.
 From BiomV Require Import Base.Tree Base.ListUtil Base.Matrix Model.Table Model.Orient Model.Filter.
 Import ListNotations.
